@@ -362,7 +362,12 @@ func (h *handler) handleMessage(ctx context.Context, msg hwebsocket.Msg, respond
 }
 
 func (h *handler) disconnect(err error) {
-	h.disconnectChan <- err
+	select {
+	case h.disconnectChan <- err:
+	default:
+		// A disconnection is already pending: one cause is enough, and the
+		// main loop, which also reports failures, must never wait for itself.
+	}
 }
 
 func (h *handler) handleDisconnect(err error) {
